@@ -361,16 +361,23 @@ def limitOk (want : LExpr) : Option LExpr → Bool
 /-- the struct's fields, by Go name, must be listed exactly in declaration order -/
 def argsOk (fields : List GoField) (args : List Name) : Bool := args == fields.map (·.name)
 
-/-- declaration against a container schema: same number of fields, tags = specification names, field types agree -/
+/-- declaration against a container schema: same number of fields, field types agree. (The json/yaml tags are the
+text form's business: `tagsOk` below, a separate obligation — bytes and roots do not depend on them.) -/
 def structOk : List GoField → SFields → Bool
   | [], .nil => true
-  | f :: fs, .cons n t r =>
-    f.json == n && f.yaml == n &&
+  | f :: fs, .cons _ t r =>
     -- the field's Go type names the very schema the specification gives the field (syntactic identity: both are
     -- entries / aliases of the same transcription)
     (match goTypeSTy f.goType with
      | some u => u.beq t
      | none => false) && structOk fs r
+  | _, _ => false
+
+/-- text form of a struct: the json and the yaml tag of every field are the specification's field name (so the tags are
+pairwise distinct and `encoding/json` / yaml emit and accept every field under the name the API uses) -/
+def tagsOk : List GoField → SFields → Bool
+  | [], .nil => true
+  | f :: fs, .cons n _ r => f.json == n && f.yaml == n && tagsOk fs r
   | _, _ => false
 
 /-- `XType.TypeByteLength()` replaced by the symbolic fixed length of the schema the view denotes -/
@@ -573,8 +580,15 @@ def leafMethodOk (owners : Owners) (views : List ViewDef) (sty : STy) (which : N
   | .opaque _ => true
   | _ => false
 
+/-- which methods a row obligation is about: the four encoding methods (property C04) or `HashTreeRoot` (property C05).
+The declaration (field list and field types) and the view type definition matter to both and are checked by both. -/
+inductive Part where
+  | codec
+  | root
+  deriving DecidableEq, Repr
+
 /-- Result of checking one Go type: `none` = agrees; `some reason` names the offending method. -/
-def checkType (owners : Owners) (views : List ViewDef) (T : GoType) : Option String :=
+def checkType (owners : Owners) (views : List ViewDef) (part : Part) (T : GoType) : Option String :=
   if T.mixedSignatures then some "methods mix signatures with and without *Spec" else
   match Spec.lookup T.name with
   | none => some "no specification schema entry of this name"
@@ -594,15 +608,17 @@ def checkType (owners : Owners) (views : List ViewDef) (T : GoType) : Option Str
     match viewBad with
     | some r => some r
     | none =>
-      let ms : List (Name × String × Method) := [
-        (n!"Deserialize", "Deserialize", T.deserialize), (n!"Serialize", "Serialize", T.serialize),
-        (n!"ByteLength", "ByteLength", T.byteLength), (n!"FixedLength", "FixedLength", T.fixedLength),
-        (n!"HashTreeRoot", "HashTreeRoot", T.hashTreeRoot)]
+      let ms : List (Name × String × Method) :=
+        match part with
+        | .codec => [
+          (n!"Deserialize", "Deserialize", T.deserialize), (n!"Serialize", "Serialize", T.serialize),
+          (n!"ByteLength", "ByteLength", T.byteLength), (n!"FixedLength", "FixedLength", T.fixedLength)]
+        | .root => [(n!"HashTreeRoot", "HashTreeRoot", T.hashTreeRoot)]
       let bad (ok : Name → Method → Bool) : Option String :=
         (ms.find? fun (n, _, m) => !ok n m).map fun (_, s, _) => s ++ " disagrees with the specification schema"
       match sty, T.decl with
       | .container fs, .struct fields =>
-        if !structOk fields fs then some "struct declaration (field list, field types or json/yaml tags) disagrees with the specification schema"
+        if !structOk fields fs then some "struct declaration (field list or field types) disagrees with the specification schema"
         else bad fun n m => containerMethodOk owners views fields sty n m
       | .container _, .named _ => some "specification schema is a container but the Go type is not a struct"
       | .list elem lim, _ => bad fun n m => listMethodOk owners views sty elem lim n m
@@ -612,8 +628,29 @@ def checkType (owners : Owners) (views : List ViewDef) (T : GoType) : Option Str
       | .vector elem len, _ => bad fun n m => vectorMethodOk owners views sty elem len n m
       | _, _ => bad fun n m => leafMethodOk owners views sty n m
 
+/-- the text-form obligation of a row (property C04 only): struct types carry the specification's field names as tags -/
+def checkTags (T : GoType) : Option String :=
+  match Spec.lookup T.name, T.decl with
+  | some (.container fs), .struct fields =>
+    if tagsOk fields fs then none else some "json/yaml tags of the struct declaration differ from the specification's field names"
+  | _, _ => none
+
+def tagsRowOk (T : GoType) : Bool := (checkTags T).isNone
+
 def GoType.opaqueMethods (T : GoType) : List String :=
   ([("Deserialize", T.deserialize), ("Serialize", T.serialize), ("ByteLength", T.byteLength),
     ("FixedLength", T.fixedLength), ("HashTreeRoot", T.hashTreeRoot)].filter (·.2.isOpaque)).map (·.1)
+
+/-- some encoding method (one of the four of property C04) has a body outside the recognised shapes -/
+def GoType.codecOpaque (T : GoType) : Bool :=
+  T.deserialize.isOpaque || T.serialize.isOpaque || T.byteLength.isOpaque || T.fixedLength.isOpaque
+
+/-- the schema kind of a row: one of the eight kinds the soundness theorems (C04: encoding methods, C05: root) cover -/
+def rowKindCovered (T : GoType) : Bool :=
+  match Spec.lookup T.name, T.decl with
+  | some (.container _), .struct _ => true
+  | some (.list _ _), _ | some (.vector _ _), _ | some (.bitlist _), _ | some (.bitvector _), _ | some (.byteList _), _
+  | some (.uint _), _ | some (.bytesN _), _ => true
+  | _, _ => false
 
 end Zrnt.Schema.Facts
